@@ -313,3 +313,23 @@ func UDPSocketClosed() int { return 0 }
 // RegisterConn makes the next net.Dial of the code under test return c
 // (engine only: the environment's socket is the harness's in-memory connection).
 func RegisterConn(c interface{}) {}
+
+// FireTicker: the interval of the k-th time.Ticker created by the code under
+// test on this path has passed (engine only; natively tickers follow the clock).
+func FireTicker(k int) bool { return false }
+
+// NumTickers is the number of tickers created so far on this path.
+func NumTickers() int { return 0 }
+
+// TickerStopped reports whether the k-th ticker has been stopped.
+func TickerStopped(k int) bool { return false }
+
+// Settle lets the other goroutines run until they block.
+func Settle() {}
+
+// AdvanceTime lets ns nanoseconds of virtual time pass for the tickers of the
+// code under test (engine only); returns the number of ticks delivered.
+func AdvanceTime(ns int64) int { return 0 }
+
+// RegisterTLSListener makes crypto/tls.NewListener return l (engine only).
+func RegisterTLSListener(l interface{}) {}
